@@ -14,6 +14,7 @@ from .pool import Pool, Builder, MissingHandle, reachable, HSTRIDE, kind_of
 from .snap import snap, digest_obj, module_digest
 
 BUDGET = 5000000
+NOCALL = 1 << 60
 
 
 def CLONE(x):
@@ -42,7 +43,7 @@ OK_EXC = ('TypeError', 'ValueError', 'ZeroDivisionError')
 
 class OpCtx(object):
     __slots__ = ('op', 'entry', 'recv', 'args', 'kwargs', 'reach', 'pre', 'clones', 'pidx', 'cancel_kind',
-                 'depth', 'fired', 'recv_inf', 'steps', 'S')
+                 'depth', 'fired', 'recv_inf', 'steps', 'S', 'cidx', 'calls')
 
 
 class Sim(object):
@@ -62,7 +63,7 @@ class Sim(object):
         self.plan_ops = []     # recorded plan (gen mode)
         self.plan_tasks = None
         self.cur = None
-        self.S = [0, BUDGET]
+        self.S = [0, BUDGET, 0, NOCALL]   # [line steps, next step point, pymeeus function entries, next call point]
         self.tracer = self._make_tracer(self.S, None)
         self.sched_keys = set()
         self.point_lines = set()
@@ -97,6 +98,9 @@ class Sim(object):
 
         def tracer(frame, event, arg):
             if frame.f_code.co_filename.startswith(pm):
+                S[2] += 1
+                if S[2] >= S[3]:
+                    S[1] = S[0] + 1     # a call-indexed point: fire at the first line of this function
                 if sim.func_log is not None:
                     sim.func_log.add(os.path.basename(frame.f_code.co_filename)[:-3] + '.' + frame.f_code.co_name)
                 return local
@@ -106,21 +110,32 @@ class Sim(object):
     def _arm(self, ctx, S):
         pts = ctx.op.get('points') or []
         S[1] = pts[ctx.pidx]['step'] if ctx.pidx < len(pts) else BUDGET
+        cps = ctx.op.get('cpoints') or []
+        S[3] = cps[ctx.cidx]['call'] if ctx.cidx < len(cps) else NOCALL
 
     def on_point(self, frame, S, task):
         ctx = self.cur if task is None else self.tcur[task]
-        pts = ctx.op.get('points') or []
-        if ctx.pidx >= len(pts):
-            if S[0] >= BUDGET:
-                raise BudgetExceeded()
-            S[1] = BUDGET
-            return
-        pt = pts[ctx.pidx]
-        ctx.pidx += 1
-        self._arm(ctx, S)
+        cps = ctx.op.get('cpoints') or []
+        if ctx.cidx < len(cps) and S[2] >= S[3] and not ctx.cancel_kind:
+            # call-indexed point (located by the k-th entry into a pymeeus function)
+            pt = cps[ctx.cidx]
+            ctx.cidx += 1
+            self._arm(ctx, S)
+            tag = ('c', pt['call'])
+        else:
+            pts = ctx.op.get('points') or []
+            if ctx.pidx >= len(pts) or S[0] < pts[ctx.pidx]['step']:
+                if S[0] >= BUDGET:
+                    raise BudgetExceeded()
+                self._arm(ctx, S)
+                return
+            pt = pts[ctx.pidx]
+            ctx.pidx += 1
+            self._arm(ctx, S)
+            tag = pt['step']
         kind = pt['kind']
         where = (frame.f_code.co_name, frame.f_lineno)
-        ctx.fired.append((pt['step'], kind))
+        ctx.fired.append((tag, kind))
         self.count('fired.' + kind)
         mod = os.path.basename(frame.f_code.co_filename)[:-3]
         self.count('preempt_in.' + mod)
@@ -133,21 +148,21 @@ class Sim(object):
         elif kind == 'cancel':
             self.pool_check(ctx.op, 'pre-cancel')
             ctx.cancel_kind = pt['exc']
-            self.events.append(('cancel', ctx.op['id'], pt['step'], pt['exc'], where))
-            raise CANCEL_EXC[pt['exc']]('injected at step %d' % pt['step'])
+            self.events.append(('cancel', ctx.op['id'], tag, pt['exc'], where))
+            raise CANCEL_EXC[pt['exc']]('injected at step %d' % S[0])
         elif kind == 'nest':
             self.pool_check(ctx.op, 'pre-nest')
             b = self.src.nested(self, ctx.op, pt)
             if b is not None:
                 if self.src.mode == 'gen':
                     pt['op'] = b
-                self.events.append(('nest', ctx.op['id'], pt['step'], b['id'], where))
+                self.events.append(('nest', ctx.op['id'], tag, b['id'], where))
                 self.sched_keys.add((ctx.op['name'], where[0], where[1], b['name']))
-                saved = (S[0], S[1], self.cur)
+                saved = (S[0], S[1], S[2], S[3], self.cur)
                 try:
                     self.run_op(b, 1)
                 finally:
-                    S[0], S[1], self.cur = saved
+                    S[0], S[1], S[2], S[3], self.cur = saved
                     sys.settrace(self.tracer)
                 self.pool_check(ctx.op, 'post-nest')
         elif kind == 'yield':
@@ -184,6 +199,7 @@ class Sim(object):
         ctx = OpCtx()
         ctx.op, ctx.entry, ctx.recv, ctx.args, ctx.kwargs = op, entry, recv, args, kwargs
         ctx.depth, ctx.pidx, ctx.cancel_kind, ctx.fired, ctx.steps = depth, 0, None, [], 0
+        ctx.cidx, ctx.calls = 0, 0
         eff = entry.effect
         ctx.recv_inf = None
         if eff.startswith('mutator'):
@@ -225,6 +241,7 @@ class Sim(object):
             self.func_log = self.funcs_by_name.setdefault(op['name'], set())
         ctx.S = S
         S[0] = 0
+        S[2] = 0
         self._arm(ctx, S)
         if task is None:
             self.cur = ctx
@@ -254,6 +271,7 @@ class Sim(object):
         except Exception as ex:
             outcome = ('exc', ex)
         ctx.steps = S[0]
+        ctx.calls = S[2]
         self.total_steps += S[0]
         self.finish(ctx, outcome, CLOCK.reads - reads0)
 
@@ -324,6 +342,7 @@ class Sim(object):
                 inf.rlocks -= 1
         kind, val = outcome
         rec = {'id': op['id'], 'name': op['name'], 'task': op['task'], 'outcome': kind, 'steps': ctx.steps,
+               'calls': ctx.calls,
                'depth': ctx.depth, 'reads': reads, 'res': None, 'recv_post': None, 'effect': eff}
         if kind == 'budget':
             self.violate('O4.budget', op, {'steps': ctx.steps})
@@ -479,7 +498,7 @@ class Sim(object):
     def run_threads(self):
         n = self.cfg['ntasks']
         self.tcur = [None] * n
-        self.tS = [[0, BUDGET] for _ in range(n)]
+        self.tS = [[0, BUDGET, 0, NOCALL] for _ in range(n)]
         self.ttracer = [self._make_tracer(self.tS[i], i) for i in range(n)]
         self.sems = [threading.Semaphore(0) for _ in range(n)]
         self.alive = [True] * n
@@ -550,7 +569,7 @@ class Sim(object):
     def t_yield(self, task, ctx, pt, where):
         self.pool_check(ctx.op, 'pre-yield')
         # tracing is off inside this callback, so the other threads run while this one is parked
-        self.t_switch(task, pt, (ctx.op['id'], pt['step'], where))
+        self.t_switch(task, pt, (ctx.op['id'], pt.get('step', ('c', pt.get('call'))), where))
         for j, c in enumerate(self.tcur):
             if j != task and c is not None:
                 self.sched_keys.add((ctx.op['name'], where[0], where[1], c.op['name']))
